@@ -51,7 +51,7 @@ R.contract(
         # the result is the longest prefix of the remaining tokens made of plain (non-empty, non-option, non '--') tokens
         "0 <= %s and %s <= len(%s) - len(result)" % (P0, P0, T),
         "seq(result) == %s[%s:%s + len(result)]" % (T, P0, P0),
-        "all(plain_token(t) for t in result)",
+        "all(implies(0 <= j and j < len(%s), plain_token(%s[j])) for j in range(%s, %s + len(result)))" % (T, T, P0, P0),
         "0 <= %s and %s + len(result) <= len(%s) and "
         "(%s + len(result) == len(%s) or not plain_token(%s[%s + len(result)]))" % (P0, P0, T, P0, T, T, P0),
         # the iterator stands just after the first token that is not part of the result
@@ -64,7 +64,7 @@ R.loop(
     GAT, 0,
     invariants=[
         "iter_seq(tokens) == old(iter_seq(tokens))",
-        "all(plain_token(t) for t in arguments_to_test)",
+        "all(implies(0 <= j and j < len(%s), plain_token(%s[j])) for j in range(%s, %s + len(arguments_to_test)))" % (T, T, P0, P0),
         "0 <= %s and %s <= iter_pos(tokens) and iter_pos(tokens) <= len(%s) and "
         "implies(token is None, iter_pos(tokens) == len(%s) and seq(arguments_to_test) == %s[%s:len(%s)]) and "
         "implies(token is not None, iter_pos(tokens) >= %s + 1 and token == %s[iter_pos(tokens) - 1] and "
